@@ -251,6 +251,10 @@ def ground_shipped(pr, repo):
 
 
 def run(pr, repo):
+    pr.level = 'other'
+    pr.explanation = ('deductive proof of the table invariants (VC) + exhaustive ground evaluation of the shipped file; '
+                      'level is "other" because 3 recorded known findings (D10a-c) mean the completeness clause does NOT hold on this tree: '
+                      'their obligations are refuted on every run and reported as KNOWN-FINDING, so discharged < obligations')
     pr.parallel([(task_pairwise, ()), (task_interaction, ()), (task_squared, ())])
     ground_shipped(pr, repo)
     pr.assumptions += ['PW: pre-states range over the universe {g1, g2, other}; entries of further names behave like "other" '
